@@ -196,6 +196,9 @@ class TemplateParser:
     def parse(self, text: str) -> Pattern:
         self.log.debug("Parsing '%s'", text)
         lexer = TagTemplateLexer(InputStream(text))
+        lexer_errors = LexerErrorCollector()
+        lexer.removeErrorListeners()
+        lexer.addErrorListener(lexer_errors)
         token_stream = CommonTokenStream(lexer)
         token_stream.fill()
         parser = TagTemplateParser(token_stream)
@@ -203,8 +206,23 @@ class TemplateParser:
 
         visitor = _TreeVisitor()
         root_pattern = visitor.visitRootPattern(parser.rootPattern())
+        if lexer_errors.first_error:
+            # Characters not recognized by the lexer must not be silently dropped
+            raise lexer_errors.first_error
         root_pattern.source_representation = text
         return root_pattern
+
+
+class LexerErrorCollector(ErrorListener):
+    """Remembers first character sequence which could not be tokenized"""
+
+    first_error: Optional[TemplateSyntaxError] = None
+
+    def syntaxError(self, recognizer, offendingSymbol, line, column, msg, e):
+        if self.first_error is None:
+            self.first_error = TemplateSyntaxError(msg).with_location(
+                Location(line, column, 1)
+            )
 
 
 class TagTemplateErrorListener(ErrorListener):
